@@ -58,3 +58,12 @@ package s2
 //@ func siTitoPiQi(siTi uint32, level int) uint32
 //@   requires 0 <= level && level <= MaxLevel
 //@   ensures [range] uint64(result) < uint64(1)<<uint(level)
+
+// A point is classified as the centre of a level-L cell only when BOTH of its discrete coordinates carry the level-L
+// pattern (lowest set bit of si|2^31 and of ti|2^31 is bit 30-L) and it is bit-for-bit the centre computed from them;
+// the compressed format drops every vertex so classified from the off-centre list.
+//@ func xyzToFaceSiTi(p Point) (face int, si, ti uint32, level int)
+//@   ensures [level-range] -1 <= level && level <= 30
+//@   ensures [si-at-level] level >= 0 ==> (uint64(si)|uint64(maxSiTi)) & ((uint64(1) << uint(31-level)) - 1) == uint64(1) << uint(30-level)
+//@   ensures [ti-at-level] level >= 0 ==> (uint64(ti)|uint64(maxSiTi)) & ((uint64(1) << uint(31-level)) - 1) == uint64(1) << uint(30-level)
+//@   ensures [exact-centre] level >= 0 ==> p.Vector == faceSiTiToXYZ(face, si, ti).Normalize()
